@@ -10,7 +10,7 @@
 (* Every state records the last transition, so each exported state is one  *)
 (* test case (receiver chain, call, predicted outcome) for the harness.    *)
 (***************************************************************************)
-EXTENDS D42Validate
+EXTENDS D42DslUniverse
 
 CONSTANTS Depth, Types
 
@@ -21,99 +21,6 @@ VARIABLES s,       \* the schema built so far (receiver of the next call)
           dead     \* the last call was refused
 
 vars == <<s, prev, chain, last, dead>>
-
-T(str) == [i \in 1..Len(str) |-> str[i]]   \* placeholder to keep text literals readable
-A == 97
-B == 98
-C == 99
-
-(***************************************************************************)
-(* Argument universes                                                      *)
-(***************************************************************************)
-WrongCommon == {VNone, VEllipsis, VNil}
-
-IntArgs == {VInt(0), VInt(5), VInt(-5), VInt(INT_MAX), VBool(TRUE)}
-           \cup {VFloat(500), VStr(<<A>>)} \cup WrongCommon
-IntCalls == {Call(m, <<a>>) : m \in {"value", "min", "max"}, a \in IntArgs}
-
-FloatArgs == {VFloat(0), VFloat(525), VFloat(-525), VFloat(25)}
-             \cup {VInt(5), VBool(TRUE), VStr(<<A>>)} \cup {VNone, VEllipsis}
-PrecArgs == {VInt(0), VInt(1), VInt(2), VInt(15), VInt(16), VBool(TRUE), VFloat(100), VNone}
-FloatCalls == {Call(m, <<a>>) : m \in {"value", "min", "max"}, a \in FloatArgs}
-              \cup {Call("precision", <<a>>) : a \in PrecArgs}
-
-StrVals == {VStr(<<>>), VStr(<<A, B>>), VStr(<<A, B, C>>)}
-LenNs == {VInt(0), VInt(2), VInt(3)}
-StrLenCalls ==
-  {Call("len", <<n>>) : n \in LenNs \cup {VInt(-1), VBool(TRUE), VStr(<<A>>), VFloat(200)}}
-  \cup {Call("len", <<n, VEllipsis>>) : n \in LenNs \cup {VNone}}
-  \cup {Call("len", <<VEllipsis, n>>) : n \in {VInt(2), VInt(3), VStr(<<A>>)}}
-  \cup {Call("len", <<VEllipsis>>), Call("len", <<VEllipsis, VEllipsis>>)}
-  \cup {Call("len", <<VInt(0), VInt(2)>>), Call("len", <<VInt(2), VInt(3)>>),
-        Call("len", <<VInt(3), VInt(2)>>), Call("len", <<VInt(2), VStr(<<A>>)>>),
-        Call("len", <<VStr(<<A>>), VInt(2)>>)}
-PatAPlus == VPat(RRep(RLit(A), 1, INF, FALSE))                         \* a+
-PatAbAnch == VPat(RSeq(<<RStart, RLit(A), RLit(B), REnd>>))            \* ^ab$
-PatC == VPat(RLit(C))                                                  \* c
-StrCalls ==
-  {Call("value", <<v>>) : v \in StrVals \cup {VInt(1), VNone, VBytes(<<A>>)}}
-  \cup StrLenCalls
-  \cup {Call("alphabet", <<v>>) : v \in {VStr(<<A, B>>), VStr(<<A, B, C>>), VStr(<<>>), VInt(1)}}
-  \cup {Call("contains", <<v>>) : v \in {VStr(<<B>>), VStr(<<C>>), VStr(<<>>), VNone}}
-  \cup {Call("regex", <<v>>) : v \in {PatAPlus, PatAbAnch, PatC, VBadPat("error"),
-                                      VBadPat("overflow"), VInt(1)}}
-
-BoolCalls == {Call("value", <<v>>) : v \in {VBool(TRUE), VBool(FALSE), VInt(1), VInt(0), VNone, VStr(<<A>>)}}
-BytesCalls == {Call("value", <<v>>) : v \in {VBytes(<<>>), VBytes(<<A>>), VStr(<<A>>), VInt(1), VNone,
-                                             VObj("bytearray_ab", <<>>, NoneOpt)}}
-UuidCalls == {Call("value", <<v>>) : v \in {VUuid(4, 0), VUuid(4, 1), VUuid(1, 0), VStr(<<A>>), VNone, VInt(1)}}
-DatetimeCalls == {Call("value", <<v>>) : v \in {VDatetime(0), VDatetime(1), VDate(0), VStr(<<A>>), VNone}}
-DateCalls == {Call("value", <<v>>) : v \in {VDate(0), VDate(1), VDatetime(0), VStr(<<A>>), VInt(1)}}
-
-\* component schemas used inside containers
-SInt1 == [BareInt EXCEPT !.value = Some(VInt(1))]
-SStrAB == [BareStr EXCEPT !.value = Some(VStr(<<A, B>>))]
-SAnyIS == [BareAny EXCEPT !.types = Some(<<BareInt, BareStr>>)]
-E == VEllipsis
-ListValArgs ==
-  { VList(<<>>), VList(<<ASchema(SInt1)>>), VList(<<ASchema(SInt1), ASchema(SStrAB)>>),
-    VList(<<ASchema(SInt1), ASchema(BareInt)>>),
-    VList(<<ASchema(SInt1), E>>), VList(<<E, ASchema(SInt1)>>), VList(<<E, ASchema(SInt1), E>>),
-    VList(<<E>>), VList(<<E, E>>), VList(<<ASchema(SInt1), E, ASchema(SInt1)>>),
-    VList(<<E, E, E>>), VList(<<VInt(1)>>), VList(<<ASchema(SInt1), VNone>>),
-    ASchema(BareInt), ASchema(SInt1), VInt(5), VNone, VObj("tuple12", <<>>, NoneOpt),
-    VDict(<<>>) }
-ListLenCalls ==
-  {Call("len", <<n>>) : n \in {VInt(0), VInt(1), VInt(2), VInt(3), VBool(TRUE), VStr(<<A>>)}}
-  \cup {Call("len", <<n, VEllipsis>>) : n \in {VInt(0), VInt(1), VInt(2), VInt(3)}}
-  \cup {Call("len", <<VEllipsis, n>>) : n \in {VInt(0), VInt(1), VInt(2), VInt(3)}}
-  \cup {Call("len", <<VEllipsis>>), Call("len", <<VInt(0), VInt(1)>>), Call("len", <<VInt(1), VInt(2)>>),
-        Call("len", <<VInt(2), VInt(1)>>), Call("len", <<VInt(1), VNone>>)}
-ListCalls == {Call("value", <<v>>) : v \in ListValArgs} \cup ListLenCalls
-
-KA == VStr(<<A>>)
-KB == VStr(<<B>>)
-DictValArgs ==
-  { VDict(<<>>), VDict(<<KV(KA, ASchema(SInt1))>>),
-    VDict(<<KV(KA, ASchema(SInt1)), KV(VOptional(KB), ASchema(BareStr))>>),
-    VDict(<<KV(E, E)>>), VDict(<<KV(KA, ASchema(SInt1)), KV(E, E)>>),
-    VDict(<<KV(KA, E)>>), VDict(<<KV(E, ASchema(SInt1))>>), VDict(<<KV(VOptional(KA), E)>>),
-    VDict(<<KV(KA, VInt(5))>>), VDict(<<KV(KA, ASchema(SInt1)), KV(VOptional(KA), ASchema(BareStr))>>),
-    VDict(<<KV(VInt(1), ASchema(SInt1)), KV(VOptional(VBool(TRUE)), ASchema(BareStr))>>),
-    VDict(<<KV(VNone, ASchema(SInt1)), KV(VObj("tuple12", <<>>, NoneOpt), ASchema(BareStr))>>),
-    VInt(5), VList(<<>>), VNone, VObj("MyDict", <<"dict">>, Some(VDict(<<KV(KA, ASchema(SInt1))>>))) }
-DictCalls == {Call("value", <<v>>) : v \in DictValArgs}
-
-AnyCalls == { Call("value", <<ASchema(SInt1)>>), Call("value", <<ASchema(SInt1), ASchema(BareStr)>>),
-              Call("value", <<ASchema(SAnyIS), ASchema(SInt1)>>),
-              Call("value", <<ASchema([BareAny EXCEPT !.types = Some(<<SAnyIS, BareNone>>)]), ASchema(BareAny)>>),
-              Call("value", <<VInt(5)>>), Call("value", <<ASchema(SInt1), VNone>>),
-              Call("value", <<VList(<<ASchema(SInt1)>>)>>) }
-
-Calls(t) == CASE t = "int" -> IntCalls [] t = "float" -> FloatCalls [] t = "str" -> StrCalls
-              [] t = "bool" -> BoolCalls [] t = "bytes" -> BytesCalls [] t = "uuid4" -> UuidCalls
-              [] t = "datetime" -> DatetimeCalls [] t = "date" -> DateCalls
-              [] t = "list" -> ListCalls [] t = "dict" -> DictCalls [] t = "any" -> AnyCalls
 
 (***************************************************************************)
 (* The machine                                                             *)
